@@ -22,12 +22,13 @@ type c05Prop struct {
 	path            string
 }
 type c05Tpl struct {
-	kind  string // print include tag
-	id    int
-	views []c04View
-	file  string
-	tag   string
-	props []c05Prop
+	kind    string // print include tag
+	id      int
+	views   []c04View
+	file    string
+	tag     string
+	props   []c05Prop
+	cond    int    // include / tag: 0 unconditional, 1 v-if, 2 v-else, 3 v-else-if (conditions that hold)
 	content string // include: static content handed to the component's slots
 }
 type c05Comp struct {
@@ -86,8 +87,23 @@ func c05Src(ts []*c05Tpl) string {
 			case "interp":
 				attrs += fmt.Sprintf(` %s="%s{{ %s }}%s"`, p.name, p.pre, p.path, p.post)
 			default:
-				attrs += fmt.Sprintf(` :%s="%s"`, p.name, p.path)
+				if (len(p.name)+len(p.path)+t.id)%3 == 0 { // the long spelling of a bound prop
+					attrs += fmt.Sprintf(` v-bind:%s="%s"`, p.name, p.path)
+				} else {
+					attrs += fmt.Sprintf(` :%s="%s"`, p.name, p.path)
+				}
 			}
+		}
+		// an include chosen by a condition that holds is the same include
+		switch t.cond {
+		case 1:
+			attrs += ` v-if="1 == 1"`
+		case 2:
+			sb.WriteString(`<p v-if="1 == 2">no</p>`)
+			attrs += ` v-else`
+		case 3:
+			sb.WriteString(`<p v-if="1 == 2">no</p>`)
+			attrs += ` v-else-if="2 == 2"`
 		}
 		if t.kind == "include" {
 			fmt.Fprintf(&sb, `<template include="%s"%s>%s</template>`, t.file, attrs, t.content)
@@ -97,6 +113,7 @@ func c05Src(ts []*c05Tpl) string {
 	}
 	return sb.String()
 }
+
 // how front-matter blocks are written in this case (0: plain LF)
 var c05FenceStyle int
 
@@ -233,6 +250,9 @@ func (g *c05Gen) body(depth int, files []string, allowTags bool) []*c05Tpl {
 			}
 			if allowTags && g.r.Intn(3) == 0 {
 				t.kind, t.tag = "tag", c05Tags[f]
+			}
+			if g.r.Intn(4) == 0 {
+				t.cond = 1 + g.r.Intn(3)
 			}
 			// static content handed to the component's slots: the props and variables of the component are the same
 			// before and after a slot that shows it
